@@ -189,7 +189,7 @@ class Units:
         if isinstance(it, ast.Call) and norm(it.func).split('.')[-1] in ('range', 'prange') and it.args:
             a = it.args[-1] if len(it.args) == 1 else it.args[1]
             txt = norm(a).replace(' ', '')
-            over = any(txt in (f'{c}.shape[0]', f'len({c})') for c in self.carry)
+            over = any(txt in (f'{c}.shape[0]', f'len({c})') for c in self.carry) or (isinstance(a, ast.Name) and self.env.get(a.id) == D(n=1))    # a local holding the batch length
             for n in ast.walk(st.target):
                 if isinstance(n, ast.Name):
                     self.env[n.id] = CONST
